@@ -31,7 +31,10 @@ try:
         shutil.copy(os.path.join(wt, d), os.path.join(scratch, d))
         tests += re.findall(r"^func (Test\w+)\(", open(os.path.join(wt, d)).read(), re.M)
         pkgs.add("./" + os.path.dirname(d) + "/")
-    tags = "-tags verif " if any("go:build verif" in open(os.path.join(wt, d)).read() for d in demos) else ""
+    tagset = set()
+    for d in demos:
+        tagset |= set(re.findall(r"^//go:build (\w+)\s*$", open(os.path.join(wt, d)).read(), re.M))
+    tags = ("-tags " + ",".join(sorted(tagset)) + " ") if tagset else ""
     run = f"go test {tags}-vet=off -count=1 -run '^({'|'.join(tests)})$' {' '.join(sorted(pkgs))}"
     rc0, out0 = sh(run, scratch)
     res["ran"].append({"cmd": run, "tree": "original + demo", "exit": rc0})
